@@ -325,6 +325,17 @@ func runC20(w *W) {
 		if strings.Join(sortedCopy(gotO), "|") != strings.Join(sortedCopy(expO), "|") {
 			w.Viol(fmt.Sprintf("C20:GetOtherFestivals:%02d-%02d", d.M, d.D), fmt.Sprintf("%s: other festivals %v, reference %v", d.Ymd, gotO, expO), d.Ymd)
 		}
+		// the full string reports the same festivals, weekday and sign as the accessors
+		if fs := d.S.ToFullString(); true {
+			for _, f := range append(append([]string{}, gotF...), gotO...) {
+				if !strings.Contains(fs, "("+f+")") {
+					w.Viol("C20:ToFullString:"+d.Ymd, fmt.Sprintf("%s: festival %s is reported by the festival accessors but not in ToFullString %q", d.Ymd, f, fs), d.Ymd)
+				}
+			}
+			if !strings.Contains(fs, got) || !strings.Contains(fs, d.Ymd) {
+				w.Viol("C20:ToFullString:sign:"+d.Ymd, fmt.Sprintf("%s: ToFullString %q lacks the date or the sign %s", d.Ymd, fs, got), d.Ymd)
+			}
+		}
 		// the answers depend on the date only, not on how the object was obtained
 		for _, r := range d.SolarRoutes(prev, d.J%29 == 0) { // the lunar route on every 29th day: all weekdays and month-days
 			w.R.Evals++
